@@ -60,6 +60,9 @@ def work(chunk, tier='quick'):
                         jc['kind'] = 'multi'
                         if res['status'] != 'ok':
                             acc.case(case, nontrivial=False, outcome=res['status'])
+                            acc.violation('C02:%s:no-record:%s:%s' % (entry, res['status'], method), jc,
+                                          'full_output call raised %s' % res.get('exc'),
+                                          c04._rank(spec, n, entry, method, order, gen))
                             continue
                         rank = c04._rank(spec, n, entry, method, order, gen)
                         for kind, text in record_problems(res, fun, x)[:1]:
@@ -114,7 +117,7 @@ def replay(case):
     fun = rh.make_fun(spec, case['n'])
     res = c04.run_call(fun, case['entry'], case['method'], case['order'], gen, x)
     if res['status'] != 'ok':
-        return True, 'raised (C04 verdict)'
+        return False, 'full_output call raised %s' % res.get('exc')
     probs = record_problems(res, fun, x)
     t = c04.entry_terms(orc, case['entry'], case['method'], case['order'], gen)
     val = np.asarray(res['val'])
@@ -165,8 +168,10 @@ def work_jac(chunk, tier='quick'):
                             with np.errstate(all='ignore'):
                                 val, info = getattr(nd, cls)(fun, method=method, order=order, full_output=True)(x)
                                 direct = fun(x)
-                    except Exception:
-                        acc.case(case, nontrivial=False, outcome='raised')     # C03's verdict
+                    except Exception as e:
+                        acc.case(case, nontrivial=False, outcome='raised')
+                        acc.violation('C02:%s:no-record:raised-%s:%s' % (cls, type(e).__name__, method), jc,
+                                      'full_output call raised %s: %s' % (type(e).__name__, e), rank=n * 100 + m)
                         continue
                     val = np.asarray(val)
                     est = np.asarray(info.error_estimate)
